@@ -4,6 +4,16 @@ import os
 from props.corecase import file_to_coq, file_nontrivial, file_distribution, shrink_file
 
 ID = "C01"
+# source constants of this property: Gen/Params.v is regenerated from the working tree, Proofs/ParamsTie.vo
+# (lemma per constant: it is the value the models use) is built with the property (lib/paramsgen.py)
+import paramsgen
+EXTRA_TARGETS = [paramsgen.TARGET]
+
+
+def pre_build(ctx):
+    paramsgen.regenerate(ctx)
+
+
 HARNESS = "c01"
 N_CASES = {"quick": 12, "thorough": 240}
 N_SEARCH = {"quick": 1, "thorough": 2}
